@@ -14,8 +14,8 @@ def mapOp {α β} (f : α → Except Err β) : LocalOp α β where
   next := fun _ x => ((), match f x with | .ok y => [.item y] | .error e => [.err e])
   fin := fun _ => []
 
-/-- rxsci/operators/filter.py `filter_mux`: `emit = predicate(item); if emit is True: forward`.
-`isTrue` is the test applied to the predicate's result. -/
+/-- rxsci/operators/filter.py `filter_mux`: `emit = predicate(item); if emit: forward`.
+`isTrue` is the test applied to the predicate's result (Python truthiness). -/
 def filterOp {α γ} (p : α → Except Err γ) (isTrue : γ → Bool) : LocalOp α α where
   σ := Unit
   init := ()
